@@ -1,6 +1,7 @@
 import LunaVerif.Lemmas.C09Stage
 import LunaVerif.Lemmas.C09BlockReq
 import LunaVerif.Lemmas.C09DistReq
+import LunaVerif.Lemmas.C09RomCorrect
 import LunaVerif.Model.Usb2.DescriptorMux
 /-!
 # C09 — GET_DESCRIPTOR returns exactly the requested descriptor bytes
@@ -15,7 +16,7 @@ zero-length packet.  Requests for descriptors that do not exist are STALLed with
 The specification vocabulary (`dataStage`, `specResponse`, `respTrace`, `hostRead`) is in
 `Props/C09Spec.lean`.  The statement is split the way the gateware is:
 
-* packet level (`block_packet_exact_partial`, `dist_packet_exact`): started from an idle state with
+* packet level (`block_packet_exact`, `dist_packet_exact`): started from an idle state with
   `value`/`length`/`start_position` held, the model's whole output trace, for *every* `tx.ready`
   pattern, is a few quiet cycles followed by the abstract transmitter's trace of
   `specResponse` — the right chunk, a single ZLP pulse, or a single STALL pulse without `valid`;
@@ -124,22 +125,19 @@ example : dataStage [1, 2, 3, 4, 5, 6, 7, 8, 9, 10] 255 8 = [[1, 2, 3, 4, 5, 6, 
 
 /-! ## Block-ROM handler -/
 
-/-- **block_packet_exact** (partial: *assuming* `rom_lookup_correct` for the requested wValue, in
-the form `lookupOk (Rom.layout coll) coll ty idx`: the two pointer hops over the generated ROM reach
-an aligned entry word carrying the length and the bytes of the descriptor if it is present, and are
-refused if it is absent.  The assumption is *evaluated* for all 65536 wValues (`romOk`) by the
-compiled Lean driver on the ROM of every collection generated in every run, see PARTIAL).
-
-Full statement (not proved): the same without `hlk`, for every `wellFormed` collection, i.e.
-`rom_lookup_correct : wellFormed coll → romOk (Rom.layout coll) coll = true`.
+/-- **block_packet_exact**, for every `wellFormed` collection (the constructor preconditions:
+non-empty, distinct (type, index), 8-bit fields, non-empty byte strings, ROM below 64 KiB).  The ROM
+side is `rom_lookup_correct` (`Lemmas/C09RomCorrect.lean`): the two pointer hops over the ROM
+generated by `Rom.layout` reach an aligned entry word carrying the length and the bytes of the
+descriptor if it is present, and are refused if it is absent.
 
 From any idle state, for every `tx.ready` pattern `rs`, a request at an in-order offset
 `p ≤ min wLength |d|` is answered, after at most four quiet cycles, with the abstract transmitter's
 trace of `specResponse`: the chunk `d[p .. p+mps) ∩ [0, wLength)`, or a one-cycle ZLP at the end of
 the data, or — descriptor absent — a one-cycle STALL and never `valid`. -/
-theorem block_packet_exact_partial (coll : Collection) (mps : Nat) (s0 : Block.State)
+theorem block_packet_exact (coll : Collection) (mps : Nat) (s0 : Block.State)
     (ty idx l p : Nat) (rs : List Bool)
-    (hlk : lookupOk (Rom.layout coll) coll ty idx = true)
+    (hwf : wellFormed coll = true)
     (hm : mps = 8 ∨ mps = 16 ∨ mps = 32 ∨ mps = 64)
     (hpw : 2 ≤ (Rom.layout coll).maxLen)
     (hty : ty < 256) (hidx : idx < 256) (hl : l < 65536)
@@ -148,6 +146,7 @@ theorem block_packet_exact_partial (coll : Collection) (mps : Nat) (s0 : Block.S
     ∃ lat, lat ≤ 4 ∧
       Block.run (blockOf coll mps) s0 (Block.reqInputs (ty * 256 + idx) l p rs)
         = respTrace lat (specResponse (descrBytes coll ty idx) l mps p) rs := by
+  have hlk : lookupOk (Rom.layout coll) coll ty idx = true := lookupOk_layout coll hwf ty idx hidx
   have hmps : 0 < mps ∧ mps < 65536 := by omega
   have hposW : 2 ≤ (blockOf coll mps).img.posW := by
     show 2 ≤ bitsFor (Rom.layout coll).maxLen
@@ -302,17 +301,17 @@ theorem respTrace_stall_no_valid (lat : Nat) (rs : List Bool) :
       · rfl
       · exact ih rs b hb
 
-/-- **stall_without_data_when_absent**, block handler (under the same ROM assumption). -/
-theorem stall_without_data_when_absent_block_partial (coll : Collection) (mps : Nat) (s0 : Block.State)
+/-- **stall_without_data_when_absent**, block handler. -/
+theorem stall_without_data_when_absent_block (coll : Collection) (mps : Nat) (s0 : Block.State)
     (ty idx l p : Nat) (rs : List Bool)
-    (hlk : lookupOk (Rom.layout coll) coll ty idx = true)
+    (hwf : wellFormed coll = true)
     (hm : mps = 8 ∨ mps = 16 ∨ mps = 32 ∨ mps = 64) (hpw : 2 ≤ (Rom.layout coll).maxLen)
     (hty : ty < 256) (hidx : idx < 256) (hl : l < 65536) (h0 : s0.fsm = .idle)
     (habs : descrBytes coll ty idx = none) :
     (∃ lat, lat ≤ 4 ∧ Block.run (blockOf coll mps) s0 (Block.reqInputs (ty * 256 + idx) l p rs)
         = respTrace lat .stall rs)
     ∧ ∀ b ∈ Block.run (blockOf coll mps) s0 (Block.reqInputs (ty * 256 + idx) l p rs), b.valid = false := by
-  obtain ⟨lat, hlat, h⟩ := block_packet_exact_partial coll mps s0 ty idx l p rs hlk hm hpw hty hidx hl h0
+  obtain ⟨lat, hlat, h⟩ := block_packet_exact coll mps s0 ty idx l p rs hwf hm hpw hty hidx hl h0
     (by intro d hd; rw [habs] at hd; simp at hd)
   rw [habs] at h
   simp only [specResponse] at h
@@ -355,12 +354,18 @@ def sample : Collection :=
    ⟨3, 0xFE, [8, 3, 65, 0, 66, 0, 67, 0]⟩,
    ⟨2, 0, [9, 2, 16, 0, 1, 1, 0, 128, 50, 7, 5, 129, 2, 64, 0, 0]⟩]
 
--- the ROM assumption of `block_packet_exact_partial` holds for present and absent wValues
+-- the collection satisfies the hypotheses of `block_packet_exact` / `rom_lookup_correct`
+set_option maxRecDepth 100000 in
+example : wellFormed sample = true ∧ 2 ≤ (Rom.layout sample).maxLen := by decide +kernel
+-- `lookupOk` is non-trivial: it holds on the generated ROM for present and absent wValues …
 set_option maxRecDepth 100000 in
 example : lookupOk (Rom.layout sample) sample 3 0xFE = true := by decide +kernel
 set_option maxRecDepth 100000 in
 example : lookupOk (Rom.layout sample) sample 3 1 = true ∧ lookupOk (Rom.layout sample) sample 9 0 = true := by
   decide +kernel
+-- … and fails against a collection whose descriptor differs from the ROM's in one byte
+set_option maxRecDepth 100000 in
+example : lookupOk (Rom.layout sample) [⟨3, 0xFE, [8, 3, 65, 0, 66, 0, 67, 1]⟩] 3 0xFE = false := by decide +kernel
 -- the 8-byte string read with wLength 255 at mps 8: one full packet, then (start_position 8) a ZLP
 set_option maxRecDepth 100000 in
 example : Block.run (blockOf sample 8) Block.init
